@@ -34,7 +34,7 @@ var c20RunTypes = []apricotpb.RunType{apricotpb.RunType_PHYSICS, apricotpb.RunTy
 
 // A component query resolves to the first existing entry among
 // (run type, role), (ANY, role), (run type, any), (ANY, any) and fails when none exists.
-//verif:entry HarnessResolveFallback unwind=8 reach=exact,anyrt,anyrole,anyany,none
+//verif:entry HarnessResolveFallback unwind=8 conform=12 reach=exact,anyrt,anyrole,anyany,none
 func HarnessResolveFallback() {
 	comp, role, entry := vrt.String("component"), vrt.String("role"), vrt.String("entry")
 	rt := c20RunTypes[vrt.IntRange("runtype", 0, len(c20RunTypes)-1)]
